@@ -478,7 +478,10 @@ def run_c12(ctx):
         sets.append(gen.huge_set(ctx.rng))
     # > 65536 units: the second level of the 16-bit DAC (m_num_levels != 0 in bc_vector_16)
     az = bytes(range(97, 123))
-    sets.append(('huge16-100k', sorted(set(gen.rand_word(ctx.rng, az, 4, 10) for _ in range(60000)))))
+    # 130 000 keys: also a saved file of more than 4 MiB (size-dependent paths of save)
+    sets.append(('huge16-100k', sorted(set(gen.rand_word(ctx.rng, az, 4, 10) for _ in range(130000)))))
+    # a saved file of more than 4 MiB (size-dependent paths of save / load): 45 000 keys with 100-byte unshared suffixes
+    sets.append(('hugefile-5m', sorted(set(gen.rand_word(ctx.rng, az, 100, 100) for _ in range(45000)))))
     cases = []
     for n, (d, K) in enumerate(sets):
         v, b, _ = gen.pick_configs(ctx.rng, n)
@@ -494,6 +497,9 @@ def run_c12(ctx):
         threads = []
         for k in range(nth):
             t = list(bat); ctx.rng.shuffle(t); threads.append(t[:ctx.rng.randint(10, 60)])
+        if d.startswith('huge'):      # several threads save / size the big dictionary at the same time
+            for k in range(min(3, nth)):
+                threads[k] = ['SAVE', 'MEM', 'SAVE'] + threads[k]
         cases.append(conc_case('c%d-%s' % (n, d), v, b, src, K, threads))
     os.environ.setdefault('VERIF_CASE_TIMEOUT', '120')
     correspond(ctx, cases, ['tsan'], j_conc, 'main')
@@ -969,7 +975,8 @@ def write_evidence(ctx, P):
         'trusted_base': ['Coq 8.16.1 kernel (coqc, vm_compute for finite sweeps; no native_compute)',
                          'axioms: none (every property theorem is "Closed under the global context")',
                          'extraction: ExtrOcamlBasic directives only; OCaml 4.13.1; hand-written ocaml/xmodel.ml glue',
-                         'translator/consts.py + translator/bittools.py (regenerate Consts.v / BitToolsGen.v from the headers)',
+                         'translators consts.py, bittools.py, layout.py, access.py (regenerate Consts.v, BitToolsGen.v, LayoutGen.v, AccessGen.v, AccessTrieGen.v from the headers on every run); hand-written AccessDispatch.v',
+                         'structural ties: harness/narrowing.py (integer widths), harness/literals.py (inline constants), anchors.lock.json (source drift)',
                          'correspondence harness: harness/driver.cpp, harness/*.py, g++ 12 / clang 14, sanitizers',
                          'hand transcription of the C++ into coq/*.v (validated by the correspondence on every run)'],
         'theorems': pr['detail'], 'forbidden_constructs': pr['forbidden'], 'coqchk': pr.get('coqchk'),
